@@ -8,9 +8,10 @@
  *   isatty(0)                     plan decides
  *   read(0, ..)                   content is SYNTHETIC (never the real fd); chunking, EINTR,
  *                                 hard errors, early end of stream
- *   open/open64/openat(<path>)    the one planned path: EINTR, errno failures, otherwise a
- *                                 memfd with the planned content (a real kernel file object,
- *                                 so fstat/lseek/read are the kernel's), or a real path
+ *   open/open64/openat(<path>)    the one planned path: EINTR, errno failures, otherwise the real
+ *                                 file the driver materialised at that path (so every path-based
+ *                                 call the program may add works for real), or a memfd
+ *   stat/lstat/statx(<path>)      truthful, size lie, failure (same script as for the descriptor)
  *   statx/fstat* on that fd       truthful, size lie, failure
  *   read(fd, ..) on that fd       short reads, EINTR, hard error, early EOF
  *   write/writev(1|2, ..)         short writes, EINTR, hard errors; bytes accepted are recorded
@@ -370,7 +371,7 @@ static int stat_event(long *size_override, int *err) {
 }
 int statx(int dirfd, const char *path, int flags, unsigned int mask, struct statx *stx) {
     ensure_init();
-    int planned = active == 1 && planned_fd >= 0 && dirfd == planned_fd && (path == NULL || !*path);
+    int planned = active == 1 && ((planned_fd >= 0 && dirfd == planned_fd && (path == NULL || !*path)) || is_planned(path));
     long so = -1; int err = 0;
     if (planned && stat_event(&so, &err)) { errno = err; return -1; }
     int r = (int)syscall(SYS_statx, dirfd, path, flags, mask, stx);
@@ -389,3 +390,35 @@ int fstat(int fd, struct stat *st) {
 int fstat64(int fd, struct stat64 *st) { return fstat(fd, (struct stat *)st); }
 int __fxstat(int ver, int fd, struct stat *st) { (void)ver; return fstat(fd, st); }
 int __fxstat64(int ver, int fd, struct stat64 *st) { (void)ver; return fstat(fd, (struct stat *)st); }
+
+/* path-based metadata of the planned path: the same script as for the open descriptor (a file that reports
+ * size 0, like /proc files and FIFOs, does so for stat(path) and fstat(fd) alike) */
+static int path_stat(const char *path, struct stat *st, int nofollow) {
+    long so = -1; int err = 0;
+    if (stat_event(&so, &err)) { errno = err; return -1; }
+    int r = (int)syscall(SYS_newfstatat, AT_FDCWD, path, st, nofollow ? AT_SYMLINK_NOFOLLOW : 0);
+    if (r == 0 && so >= 0) st->st_size = (off_t)so;
+    return r;
+}
+int stat(const char *path, struct stat *st) {
+    ensure_init();
+    if (is_planned(path)) return path_stat(path, st, 0);
+    return (int)syscall(SYS_newfstatat, AT_FDCWD, path, st, 0);
+}
+int stat64(const char *path, struct stat64 *st) { return stat(path, (struct stat *)st); }
+int lstat(const char *path, struct stat *st) {
+    ensure_init();
+    if (is_planned(path)) return path_stat(path, st, 1);
+    return (int)syscall(SYS_newfstatat, AT_FDCWD, path, st, AT_SYMLINK_NOFOLLOW);
+}
+int lstat64(const char *path, struct stat64 *st) { return lstat(path, (struct stat *)st); }
+int __xstat(int ver, const char *path, struct stat *st) { (void)ver; return stat(path, st); }
+int __xstat64(int ver, const char *path, struct stat64 *st) { (void)ver; return stat(path, (struct stat *)st); }
+int __lxstat(int ver, const char *path, struct stat *st) { (void)ver; return lstat(path, st); }
+int __lxstat64(int ver, const char *path, struct stat64 *st) { (void)ver; return lstat(path, (struct stat *)st); }
+int fstatat(int dirfd, const char *path, struct stat *st, int flags) {
+    ensure_init();
+    if (is_planned(path)) return path_stat(path, st, flags & AT_SYMLINK_NOFOLLOW);
+    return (int)syscall(SYS_newfstatat, dirfd, path, st, flags);
+}
+int fstatat64(int dirfd, const char *path, struct stat64 *st, int flags) { return fstatat(dirfd, path, (struct stat *)st, flags); }
